@@ -193,14 +193,14 @@ impl FarmSim {
                 6 => {
                     // a new maximum for NEW positions, inside [current minimum, one year]
                     let span = YEAR - self.min_dur;
-                    let m = self.min_dur + if span == 0 { 0 } else { (value as u64 * 40_503) % (span + 1) };
+                    let m = self.min_dur + if span == 0 || value % 7 == 0 { 0 } else { (value as u64 * 40_503) % (span + 1) };
                     *max_unlocking_duration = Some(m);
                     apply = Box::new(move |s| s.max_dur = m);
                 }
                 7 => {
                     // a new minimum, inside [one day, current maximum]
                     let span = self.max_dur - DAY;
-                    let m = DAY + if span == 0 { 0 } else { (value as u64 * 40_503) % (span + 1) };
+                    let m = if value % 7 == 0 { self.max_dur } else { DAY + if span == 0 { 0 } else { (value as u64 * 40_503) % (span + 1) } };
                     *min_unlocking_duration = Some(m);
                     apply = Box::new(move |s| s.min_dur = m);
                 }
